@@ -292,16 +292,31 @@ func timedCallV4(tau time.Duration, tries int, cancelAt, closeAt *time.Duration,
 		defer cancel()
 		// a context ends either by an explicit cancel or by reaching its own deadline (odd instants)
 		byDeadline := cancelAt != nil && (*cancelAt/time.Millisecond)%2 == 1
+		// ... and either kind may carry a cause of the application's own (context.WithCancelCause / WithTimeoutCause):
+		// what the call returns is still the context's error
+		withCause := cancelAt != nil && (*cancelAt/time.Millisecond)%4 >= 2
 		if byDeadline {
 			cancel()
-			ctx, cancel = context.WithTimeout(context.Background(), *cancelAt)
+			if withCause {
+				ctx, cancel = context.WithTimeoutCause(context.Background(), *cancelAt, errors.New("lease manager shutting down"))
+			} else {
+				ctx, cancel = context.WithTimeout(context.Background(), *cancelAt)
+			}
 			defer cancel()
 		}
 		if cancelAt != nil && !byDeadline {
+			stop := func() { cancel() }
+			if withCause {
+				cancel()
+				var cc context.CancelCauseFunc
+				ctx, cc = context.WithCancelCause(context.Background())
+				stop = func() { cc(errors.New("interface went down")) }
+				defer cc(nil)
+			}
 			go func() {
 				select {
 				case <-time.After(*cancelAt):
-					cancel()
+					stop()
 				case <-conn.closed:
 				}
 			}()
@@ -409,16 +424,31 @@ func timedCallV6(tau time.Duration, tries int, cancelAt, closeAt *time.Duration,
 		defer cancel()
 		// a context ends either by an explicit cancel or by reaching its own deadline (odd instants)
 		byDeadline := cancelAt != nil && (*cancelAt/time.Millisecond)%2 == 1
+		// ... and either kind may carry a cause of the application's own (context.WithCancelCause / WithTimeoutCause):
+		// what the call returns is still the context's error
+		withCause := cancelAt != nil && (*cancelAt/time.Millisecond)%4 >= 2
 		if byDeadline {
 			cancel()
-			ctx, cancel = context.WithTimeout(context.Background(), *cancelAt)
+			if withCause {
+				ctx, cancel = context.WithTimeoutCause(context.Background(), *cancelAt, errors.New("lease manager shutting down"))
+			} else {
+				ctx, cancel = context.WithTimeout(context.Background(), *cancelAt)
+			}
 			defer cancel()
 		}
 		if cancelAt != nil && !byDeadline {
+			stop := func() { cancel() }
+			if withCause {
+				cancel()
+				var cc context.CancelCauseFunc
+				ctx, cc = context.WithCancelCause(context.Background())
+				stop = func() { cc(errors.New("interface went down")) }
+				defer cc(nil)
+			}
 			go func() {
 				select {
 				case <-time.After(*cancelAt):
-					cancel()
+					stop()
 				case <-conn.closed:
 				}
 			}()
@@ -509,8 +539,67 @@ func delivery(ms int, accepted bool) []byte {
 }
 
 // C12: the retransmission schedule
+// helperCallDests: the lease helpers (DiscoverOffer, Solicit) send to the address the client was configured with
+// (WithServerAddr / WithBroadcastAddr); that address may name an interface by its zone. Returns the destination and
+// time of every transmission of one unanswered call.
+func helperCallDests(v6 bool, dest *net.UDPAddr, tau time.Duration, tries int) (dests []string, at []time.Duration, err error) {
+	bubbleNote = fmt.Sprintf("helper call v6=%v dest=%s T=%v n=%d", v6, dest, tau, tries)
+	runBubble(func(t *testing.T) {
+		conn := newLabConn()
+		if v6 {
+			c, e := nclient6.NewWithConn(conn, labHW, nclient6.WithTimeout(tau), nclient6.WithRetry(tries), nclient6.WithBroadcastAddr(dest))
+			if e != nil {
+				err = e
+				return
+			}
+			_, err = c.Solicit(context.Background())
+			c.Close()
+		} else {
+			c, e := nclient4.NewWithConn(conn, labHW, nclient4.WithTimeout(tau), nclient4.WithRetry(tries), nclient4.WithServerAddr(dest))
+			if e != nil {
+				err = e
+				return
+			}
+			_, err = c.DiscoverOffer(context.Background())
+			c.Close()
+		}
+		synctest.Wait()
+		conn.mu.Lock()
+		for _, w := range conn.writes {
+			dests = append(dests, w.dest)
+			at = append(at, w.at)
+		}
+		conn.mu.Unlock()
+	})
+	return
+}
+
 func genC12(r *Run) {
 	evals := 0
+	// the helpers' transmissions all go to the configured address, zone included
+	for i, dest := range []*net.UDPAddr{
+		{IP: net.ParseIP("ff02::1:2"), Port: 547, Zone: "eth0"}, {IP: net.ParseIP("fe80::1"), Port: 547, Zone: "wlan1"}, {IP: net.ParseIP("2001:db8::5"), Port: 1547},
+		{IP: net.IPv4bcast, Port: 67, Zone: "eth1"}, {IP: net.IP{10, 0, 0, 1}, Port: 67}, {IP: net.IP{192, 0, 2, 7}, Port: 1067, Zone: "br0"}} {
+		v6 := i < 3
+		n := 1 + i%3
+		dests, at, err := helperCallDests(v6, dest, 20*time.Millisecond, n)
+		evals++
+		cs := fmt.Sprintf("v6=%v configured destination %s, T=20ms n=%d", v6, dest, n)
+		if len(dests) != n {
+			r.Fail("c12-transmission-count", cs, fmt.Sprintf("%d transmissions, want %d (error %v)", len(dests), n, err))
+			continue
+		}
+		for k := range dests {
+			if dests[k] != dest.String() {
+				r.Fail("c12-destination", cs, fmt.Sprintf("transmission %d went to %s, the client was configured with %s", k, dests[k], dest))
+				break
+			}
+			if want := 20 * time.Millisecond * time.Duration((1<<uint(k))-1); at[k] != want {
+				r.Fail("c12-offset", cs, fmt.Sprintf("transmission %d at %v, want %v", k, at[k], want))
+				break
+			}
+		}
+	}
 	taus := []int{1, 50, 5000}
 	maxN := 6
 	if r.Thorough() {
